@@ -171,7 +171,7 @@ Definition de_end (E : env) (s : st) : res st :=
   | None => Ok s1
   end.
 
-Definition value_fuel (input : bytes) : nat := S (S (length input)).
+Definition value_fuel (input : bytes) : nat := S (S (S (2 * length input))).
 
 (* from_trait::<_, Value> *)
 Definition from_input (E : env) (input : bytes) : res value :=
